@@ -19,9 +19,11 @@ from __future__ import annotations
 import itertools
 import json
 import math
+import multiprocessing
 import os
 import tempfile
 import threading
+import time
 from typing import Any, Dict, Iterable, List, Optional, Sequence, Set, Tuple
 from uuid import uuid4
 
@@ -279,11 +281,22 @@ class HopRecorder:
                     return classmethod(rec)
 
                 setattr(cls, attr, mk(fn, cls, dirn))
+        HopRecorder.ACTIVE.append(self)
         return self
 
     def __exit__(self, *a: Any) -> None:
         for cls, attr, orig in self.saved:
             setattr(cls, attr, orig)
+        if self in HopRecorder.ACTIVE:
+            HopRecorder.ACTIVE.remove(self)
+
+    ACTIVE: List["HopRecorder"] = []
+
+    @staticmethod
+    def restore_all() -> None:
+        """undo the patches of recorders whose thread never came back (a hung flight call)"""
+        for r in list(HopRecorder.ACTIVE)[::-1]:
+            r.__exit__()
 
 
 def err_class(e: BaseException) -> str:
@@ -611,6 +624,25 @@ def stop_flight_server() -> None:
             pass
 
 
+def run_flight_path_guarded(ctx: Ctx, case: Dict[str, Any], native: Any) -> Optional[Dict[str, Any]]:
+    """The flight path talks to the flight server from this process (gRPC without deadline): watchdog, one retry on a
+    fresh server, and only a hang that reproduces is reported."""
+    from harness import schedlib as S
+
+    for attempt in (0, 1):
+        fin, res = S.guarded(lambda: run_path(case, native), RUN_TIMEOUT)
+        if fin and isinstance(res, dict):
+            return res
+        HopRecorder.restore_all()
+        stop_flight_server()
+        kill_stray_children()
+        if attempt == 0:
+            ctx.tag("flight_hangs_retried", "calls")
+    ctx.case("hops", case, True, path="flight")
+    ctx.violation("hops", case, f"flight upload/download for {case['src']} did not end (twice in a row, {RUN_TIMEOUT:.0f} s each)")
+    return None
+
+
 def model_req(case: Dict[str, Any], rj: Dict[str, Any]) -> List[Dict[str, Any]]:
     ts, td = TYPE_OF_FW[case["src"]], TYPE_OF_FW[case["dst"]]
     p = case["path"]
@@ -682,7 +714,12 @@ def check_hops(ctx: Ctx, cases: List[Dict[str, Any]]) -> None:
         spec = decode_spec(case["table"])
         native = build_native(spec, case["src"])
         src_norm = norm_table(native)
-        res = run_path(case, native)
+        if case["path"] == "flight":
+            res = run_flight_path_guarded(ctx, case, native)
+            if res is None:
+                continue
+        else:
+            res = run_path(case, native)
         dst_norm = norm_table(res["out"]) if res.get("out") is not None else None
         mr = model_req(case, rj)
         k0 = len(reqs)
@@ -770,6 +807,49 @@ def suite_illtyped(ctx: Ctx) -> None:
 # suite: e2e
 
 
+RUN_TIMEOUT = 60.0
+FLAKES = {"hangs_retried": 0}
+
+
+def kill_stray_children() -> None:
+    """Terminate child processes left behind by a run that did not end - everything except this check's flight server."""
+    srv = _FLIGHT.get("srv")
+    keep = srv.flight_server_process.pid if (srv is not None and srv.flight_server_process is not None) else None
+    for ch in multiprocessing.active_children():
+        if ch.pid != keep:
+            try:
+                ch.terminate()
+                ch.join(2)
+                if ch.is_alive():
+                    ch.kill()
+            except Exception:
+                pass
+
+
+def read_settled_log(log: str) -> List[Dict[str, Any]]:
+    """The API call has returned or raised; wait until the event file stops growing, then read it."""
+    last = -1
+    for _ in range(100):
+        size = os.path.getsize(log) if os.path.exists(log) else 0
+        if size == last:
+            break
+        last = size
+        time.sleep(0.03)
+    events = []
+    if os.path.exists(log):
+        with open(log) as fh:
+            for line in fh:
+                try:
+                    events.append(json.loads(line))
+                except Exception:
+                    pass
+        try:
+            os.remove(log)
+        except OSError:
+            pass
+    return events
+
+
 def _consumer_calc(cls: Any, data: Any, features: Any) -> Any:
     F.log_event(ev="recv", group=cls.__name__, ty=tname(type(data)), table=norm_table(data), tid=threading.get_ident())
     n = len(norm_table(data)[0]["cells"]) if norm_table(data) else 0
@@ -778,7 +858,7 @@ def _consumer_calc(cls: Any, data: Any, features: Any) -> Any:
     return F.from_columns({name: [0] * n}, fw)
 
 
-def run_e2e_case(case: Dict[str, Any], logdir: str) -> Dict[str, Any]:
+def run_e2e_case_once(case: Dict[str, Any], logdir: str) -> Dict[str, Any]:
     from mloda.user import mloda
     from mloda.core.abstract_plugins.components.feature import Feature
     from mloda.core.abstract_plugins.components.feature_name import FeatureName
@@ -808,32 +888,47 @@ def run_e2e_case(case: Dict[str, Any], logdir: str) -> Dict[str, Any]:
         frameworks={dst},
         extra={"calculate_feature": classmethod(_consumer_calc), "input_features": input_features},
     )
+    from harness import schedlib as S
+
     log = os.path.join(logdir, f"ev_{uuid4().hex}.log")
+    fsrv = flight_server() if case["mode"] == "MULTIPROCESSING" else None
+
+    def call() -> Dict[str, Any]:
+        try:
+            res = mloda.run_all(
+                [Feature(out_name)],
+                compute_frameworks={src, dst},
+                plugin_collector=F.collector({prod, cons}),
+                parallelization_modes={ParallelizationMode[case["mode"]]},
+                flight_server=fsrv,
+            )
+            return {"ok": True, "result_types": [tname(type(r)) for r in res]}
+        except Exception as e:  # noqa: BLE001
+            return {"ok": False, "err": (repr(e) + str(e))[-int(os.environ.get("VERIF_ERRLEN", "600")) :]}
+
     os.environ[F.LOG_ENV] = log
     try:
-        res = mloda.run_all(
-            [Feature(out_name)],
-            compute_frameworks={src, dst},
-            plugin_collector=F.collector({prod, cons}),
-            parallelization_modes={ParallelizationMode[case["mode"]]},
-            flight_server=flight_server() if case["mode"] == "MULTIPROCESSING" else None,
-        )
-        out: Dict[str, Any] = {"ok": True, "result_types": [tname(type(r)) for r in res]}
-    except Exception as e:  # noqa: BLE001
-        out = {"ok": False, "err": (repr(e) + str(e))[-int(os.environ.get("VERIF_ERRLEN", "600")) :]}
+        fin, out = S.guarded(call, RUN_TIMEOUT)
     finally:
         os.environ.pop(F.LOG_ENV, None)
-    events = []
-    if os.path.exists(log):
-        with open(log) as fh:
-            for line in fh:
-                try:
-                    events.append(json.loads(line))
-                except Exception:
-                    pass
-        os.remove(log)
+    if not fin or not isinstance(out, dict):
+        out = {"ok": False, "hang": True, "err": f"run did not end within {RUN_TIMEOUT:.0f} s"}
+    events = read_settled_log(log)
     out["sent"] = [e["table"] for e in events if e.get("ev") == "sent"]
     out["recv"] = [(e["ty"], e["table"]) for e in events if e.get("ev") == "recv"]
+    return out
+
+
+def run_e2e_case(case: Dict[str, Any], logdir: str) -> Dict[str, Any]:
+    """One mloda run under a watchdog; a run that does not end is repeated once after the stray children (manager,
+    workers - not this check's flight server) were removed.  Only a hang that happens twice in a row is handed on."""
+    out = run_e2e_case_once(case, logdir)
+    if out.get("hang"):
+        kill_stray_children()
+        FLAKES["hangs_retried"] += 1
+        out = run_e2e_case_once(case, logdir)
+        if out.get("hang"):
+            kill_stray_children()
     return out
 
 
@@ -866,13 +961,37 @@ def check_e2e(ctx: Ctx, cases: List[Dict[str, Any]], logdir: str) -> None:
         reqs.append({"op": op, **rj, "from": ts, "to": td, "dty": ts})
         rows.append((case, r))
     outs = ctx.lean.batch(reqs)
+
+    def mismatch(r: Dict[str, Any], mo: Dict[str, Any]) -> bool:
+        """model: success/failure class and the type the consumer receives; every group runs exactly once"""
+        if "err" in mo:
+            return bool(r["ok"] or not r.get("err"))
+        if not r["ok"]:
+            return True
+        return len(r["sent"]) != 1 or len(r["recv"]) != 1 or r["recv"][0][0] != mo["ty"]
+
     for (case, r), mo in zip(rows, outs):
         spec = case["table"]
         through = sorted({case["src"], case["dst"], "pa"} if (case["mode"] == "MULTIPROCESSING" or "pa" not in (case["src"], case["dst"])) else {case["src"], case["dst"]})
+        # THREADING / MULTIPROCESSING runs are subject to scheduling: a run the model does not match is repeated up to 2
+        # more times and judged on the last attempt (a deterministic defect reproduces every time)
+        tries = 0
+        first = None
+        known_det = spec["nrows"] == 0 and case["dst"] == "py" and "Data is empty or not in expected format" in r.get("err", "")  # F-C14-zero-rows-pydict
+        while case["mode"] != "SYNC" and tries < 2 and mismatch(r, mo) and not r.get("hang") and not known_det:
+            if first is None:
+                first = {"ok": r["ok"], "err": r.get("err", "")[-160:], "sent": len(r["sent"]), "recv": [t for t, _ in r["recv"]]}
+            tries += 1
+            r = run_e2e_case(case, logdir)
+            ctx.evaluations += 1
+        if tries and not mismatch(r, mo) and len(ctx.notes) < 12:
+            ctx.note(f"e2e {case['mode']} {case['src']}->{case['dst']} matched the model only after {tries} re-run(s); first attempt: {str(first)[:260]}")
         case = dict(case, through=through, path="e2e")
-        ctx.case("e2e", case, True, e2e_mode=case["mode"], e2e_pair=f"{case['src']}->{case['dst']}")
+        ctx.case("e2e", case, True, e2e_mode=case["mode"], e2e_pair=f"{case['src']}->{case['dst']}", e2e_reruns=tries)
         td = TYPE_OF_FW[case["dst"]]
-        # model: success/failure class and the type the consumer receives
+        if r.get("hang"):
+            ctx.violation("e2e", case, f"{case['mode']} {case['src']}->{case['dst']}: run did not end (twice in a row, {RUN_TIMEOUT:.0f} s each)")
+            continue
         if "err" in mo:
             if r["ok"] or not r.get("err"):
                 ctx.disagree("e2e", case, {"ok": r["ok"], "recv_ty": [t for t, _ in r["recv"]]}, mo)
@@ -898,6 +1017,9 @@ def check_e2e(ctx: Ctx, cases: List[Dict[str, Any]], logdir: str) -> None:
         if bad:
             cls = classify(case, r["sent"][0], bad)
             ctx.violation("e2e", case, f"{case['mode']} {case['src']}->{case['dst']}: " + "; ".join(bad[:3]), r["recv"][0][1], r["sent"][0], finding_class=cls)
+    if FLAKES["hangs_retried"]:
+        ctx.tag("e2e_hangs_retried", "runs", FLAKES["hangs_retried"])
+        FLAKES["hangs_retried"] = 0
 
 
 # --------------------------------------------------------------------------------------
